@@ -1798,7 +1798,9 @@ class UTPM(Ring, RawAlgorithmsMixIn):
         """ extracts the Jacobian vector product from a UTPM instance
         if x.ndim == 1 it is equivalent to the gradient
         """
-        return x.data[1,...].transpose([i for i in range(1,x.data[1,...].ndim)] + [0])[:,0]
+        # there is exactly one direction: its first order coefficient is J v
+        # (also for scalar valued functions, where J v is a scalar)
+        return x.data[1,0,...]
 
 
     @classmethod
